@@ -95,6 +95,15 @@ def gen_call(rng):
     if api in ("u_to_euler", "u_to_rod", "u_to_ubi"):
         cls = (VALID_ROT if valid else INVALID_ROT)[int(rng.integers(3 if valid else 4))]
         step.update(cls=cls, U=_rotation_variant(rng, U, cls).tolist(), cell=cell)
+        if valid and rng.random() < 0.4:
+            step["form"] = ["list", "tuple", "float32array"][int(rng.integers(3))]
+            if step["form"] == "float32array":
+                # what is judged is the matrix the function receives: the float32 image of U
+                step["U"] = np.array(step["U"]).astype(np.float32).astype(np.float64).tolist()
+        elif valid and rng.random() < 0.25:
+            # accepted first, then damaged in place and handed in again: the same array object, new content
+            i, j = int(rng.integers(3)), int(rng.integers(3))
+            step["damage"] = {"i": i, "j": j, "delta": float(rng.choice([-1, 1]) * 10 ** rng.uniform(-2, 0)), "flip": bool(rng.random() < 0.3)}
     elif api == "Umis":
         cls = (VALID_ROT if valid else INVALID_ROT)[int(rng.integers(3 if valid else 4))]
         U2 = oracle.quat_to_mat(rng.normal(size=4))
@@ -157,13 +166,26 @@ def workload(ctx):
     yield "dash_O", {}
 
 
-def invoke(ctx, st):
+def as_arg(st, M):
+    """the container the caller hands over: float64 array (default), nested list, nested tuple, or a float32-typed array"""
+    form = st.get("form", "array")
+    A = np.array(M, float)
+    if form == "list":
+        return A.tolist()
+    if form == "tuple":
+        return tuple(map(tuple, A.tolist()))
+    if form == "float32array":
+        return A.astype(np.float32)
+    return A
+
+
+def invoke(ctx, st, held=None):
     mod = {"tools": ctx.T, "laue": ctx.L, "symmetry": ctx.S}[st["module"]]
     api = st["api"]
     if api in ("u_to_euler", "u_to_rod"):
-        return getattr(mod, api)(np.array(st["U"]))
+        return getattr(mod, api)(held if held is not None else as_arg(st, st["U"]))
     if api == "u_to_ubi":
-        return mod.u_to_ubi(np.array(st["U"]), st["cell"])
+        return mod.u_to_ubi(held if held is not None else as_arg(st, st["U"]), st["cell"])
     if api == "Umis":
         return mod.Umis(np.array(st["U"]), np.array(st["U2"]), st["cs"])
     if api == "ubi_to_u":
@@ -212,11 +234,35 @@ def case_history(ctx, p):
                           observed=repr(now), expected=repr(state), detail={"step": i, "after": st["assign"]})
                 mon.config("assign:" + st["assign"])
                 continue
-            label = "%s.%s[%s]" % (st["module"], st["api"], st["cls"])
+            if "damage" in st:
+                held = np.array(st["U"], float)
+                judge_call(ctx, CH, state, dict(st, cls=st["cls"] + ",first submission"), held)
+                dmg = st["damage"]
+                if dmg["flip"]:
+                    held[:, dmg["j"]] *= -1
+                else:
+                    held[dmg["i"], dmg["j"]] += dmg["delta"]
+                if float(np.max(np.abs(held.T @ held - np.eye(3)))) >= 1e-3 or np.linalg.det(held) < 0:
+                    judge_call(ctx, CH, state, dict(st, valid=False, cls="damaged in place and resubmitted"), held)
+                continue
+            judge_call(ctx, CH, state, st, None)
+    finally:
+        CH.activated = True
+    if nvalid >= 2 and ninvalid >= 1:
+        mon.nontriv(repr(p["steps"])[:4000])
+
+
+def judge_call(ctx, CH, state, st, held):
+    mon = ctx.mon
+    if True:
+        if True:
+            label = "%s.%s[%s%s]" % (st["module"], st["api"], st["cls"], "," + st["form"] if "form" in st else "")
             mon.config(("on " if state else "off ") + ("valid:" if st["valid"] else "invalid:") + st["api"])
+            if "form" in st:
+                mon.config("form:" + st["form"])
             del ctx.calls[:]
             try:
-                res = invoke(ctx, st)
+                res = invoke(ctx, st, held)
                 raised = None
             except Exception as exc:
                 res = None
@@ -240,7 +286,7 @@ def case_history(ctx, p):
                         # reference value with the checks on (the switch is put back at once; the model state is unchanged)
                         CH.activated = True
                         try:
-                            ref = invoke(ctx, st)
+                            ref = invoke(ctx, st, None if held is None else held.copy())
                         except Exception:
                             ref = None
                         finally:
@@ -249,10 +295,6 @@ def case_history(ctx, p):
                             same = bool(np.array_equal(_flat(ref), _flat(res)))
                             mon.check("history:same result with checks off", same, observed=None if same else _flat(res),
                                       expected=None if same else _flat(ref), detail=label)
-    finally:
-        CH.activated = True
-    if nvalid >= 2 and ninvalid >= 1:
-        mon.nontriv(repr(p["steps"])[:4000])
 
 
 def case_dash_O(ctx, p):
